@@ -42,6 +42,12 @@ def treeToJson : (d : Nat) → T d → Json
   | 0, v => jInt (show Int from v)
   | d + 1, f => jList ((show List (Int × T d) from f).map (fun e => jList [jInt e.1, treeToJson d e.2]))
 
+def treeEq : (d : Nat) → T d → T d → Bool
+  | 0, x, y => decide ((show Int from x) = (show Int from y))
+  | d + 1, a, b =>
+    let la := (show List (Int × T d) from a); let lb := (show List (Int × T d) from b)
+    la.length == lb.length && (la.zip lb).all (fun p => p.1.1 == p.2.1 && treeEq d p.1.2 p.2.2)
+
 def fTree (j : Json) (k : String) (d : Nat) : Except String (T d) := do parseTree d (← field j k)
 
 /-- optional position: -1 encodes "fresh default / none" -/
